@@ -47,6 +47,56 @@ def serde_zst(pid, tier, seed, workdir, stats):
         core.correspond(pid, tier, b, ["genpure", gen_seed(seed, 2), "serde"], workdir, stats)
 
 
+def miri_support(pid, tier, seed, workdir, stats):
+    """Supporting validation for the machine-level part of C02 (NOT proof, thorough tier only): a reduced set of
+    generated histories is executed on the real collections under Miri (Stacked Borrows, uninitialised reads,
+    out-of-bounds and misaligned accesses, leaks of freed memory). Undefined behaviour reported by Miri is a
+    violation with the history as replay; Miri's observations must also equal the native portable build's."""
+    if tier != "thorough":
+        return
+    import subprocess
+    rc, out = core.sh(["cargo", "+nightly", "miri", "--version"], cwd=core.HARNESS, timeout=120)
+    if rc != 0:
+        stats["notes"].append("Miri not available in this sandbox: machine-level supporting validation skipped")
+        return
+    tdir = os.path.join(core.CACHE, "target-miri")
+    env = dict(core.ENV, CARGO_TARGET_DIR=tdir, MIRIFLAGS="-Zmiri-disable-isolation", RUSTFLAGS="--cfg hashbrown_verif")
+    jobs = []
+    for i, profile in enumerate(("mixed", "table", "set", "iter", "entry-full", "reserve", "saturate", "clone")):
+        prefix = os.path.join(workdir, "miri-" + profile)
+        rc, out = core.sh([core.hbv("portable"), "gen", profile, str(gen_seed(seed, 40 + i)), "2", prefix], timeout=600)
+        if rc != 0 or not os.path.exists(prefix + ".ops"):
+            continue
+        fo, fe = open(prefix + ".miri", "w"), open(prefix + ".miri.err", "w")
+        jobs.append((profile, prefix, subprocess.Popen(["cargo", "+nightly", "miri", "run", "--offline", "--", "replay", prefix + ".ops"],
+                                                       cwd=core.HARNESS, env=env, stdout=fo, stderr=fe), fo, fe))
+    t_end = time.time() + 3000
+    for profile, prefix, p, fo, fe in jobs:
+        try:
+            rc = p.wait(timeout=max(10, t_end - time.time()))
+        except subprocess.TimeoutExpired:
+            p.kill()
+            stats["notes"].append("Miri run of profile %s stopped after the time budget (no verdict)" % profile)
+            continue
+        finally:
+            fo.close(); fe.close()
+        err = open(prefix + ".miri.err", errors="replace").read()
+        got = [l.rstrip() for l in open(prefix + ".miri", errors="replace").read().split("\n")]
+        want = [l.rstrip() for l in open(prefix + ".real").read().split("\n")]
+        stats["evaluations"] += len(got)
+        stats["batches"].append(dict(backend="miri", gen="gen %s (2 scenarios, supporting validation)" % profile, lines=len(got)))
+        if "Undefined Behavior" in err or "error: memory leaked" in err:
+            k = err.find("Undefined Behavior") if "Undefined Behavior" in err else err.find("error: memory leaked")
+            raise Violation("Miri reports undefined behaviour / leak while the real collections execute a generated history (profile %s)" % profile,
+                            "# " + err[max(0, k - 300):k + 2500].replace("\n", "\n# ") + "\n" + open(prefix + ".ops").read(), True)
+        if rc != 0:
+            stats["notes"].append("Miri run of profile %s ended with exit %d without a UB report: %s" % (profile, rc, err[-300:].replace("\n", " ")))
+        elif got != want:
+            i = next((k for k in range(min(len(got), len(want))) if got[k] != want[k]), -1)
+            raise Violation("the same history gives different observations under Miri and natively (portable build), profile %s" % profile,
+                            "# observation %d\n# miri  : %s\n# native: %s\n" % (i, got[i][:600] if 0 <= i < len(got) else "", want[i][:600] if 0 <= i < len(want) else "") + open(prefix + ".ops").read(), True)
+
+
 def c16_regen(pid, tier, seed, workdir, stats):
     """T1 for C16: regenerate the compiler-derived marker/method tables from /repo (rustdoc JSON)."""
     tr = os.path.join(core.VERIF, "translate", "rustdoc2lean.py")
@@ -190,7 +240,7 @@ PROPS = {
         module="Hb.Props.C02",
         ties=[("scen", "mixed", 300, 10000), ("scen", "saturate", 80, 3000), ("scen", "entry-full", 120, 4000),
               ("scen", "table", 150, 5000), ("scen", "set", 100, 3000), ("scen", "iter", 100, 3000),
-              ("scen", "panic-mixed", 4, 120), ("scen", "reserve", 100, 3000)],
+              ("scen", "panic-mixed", 4, 120), ("scen", "reserve", 100, 3000), ("custom", miri_support)],
         backends=["sse2", "portable"],
         design="§7 C02",
         text="Proof of the index/ownership logic: in the Lean model every raw access is checked (control byte outside "
@@ -208,7 +258,9 @@ PROPS = {
         note="PARTIAL for the machine level: the model cannot exhibit pointer provenance/aliasing (Stacked/Tree Borrows), reads of "
              "uninitialised bytes as such, the SIMD loads or code generation; those are only exercised by the supporting "
              "validation above (not proof). Trusted: Lean kernel, axioms propext/Classical.choice/Quot.sound; harness/hooks. "
-             "Entry objects and iterators being forgotten mid-use are covered for drain (theorem) and by the tie for entries.",
+             "Entry objects and iterators being forgotten mid-use are covered for drain (theorem) and by the tie for entries. "
+             "Thorough tier adds a reduced set of generated histories executed under Miri (supporting validation of the "
+             "machine level, not proof): a Miri UB/leak report or a Miri-vs-native difference is reported with the history.",
     ),
     "C03": dict(
         module="Hb.Props.C03",
@@ -531,6 +583,9 @@ def run_tie(pid, cfg, tie, tier, seed, workdir, stats):
             _, profile, nq, nt = tie[:4]
             backends = tie[4] if len(tie) > 4 else cfg.get("backends", ["sse2"])
             n = nt if thorough else nq
+            if not thorough and stats.get("changed"):
+                # the source differs from the tree the model was last validated against: search harder
+                n = n * (2 if profile.startswith("panic") or profile.startswith("alloc") else 3)
             for b in backends:
                 nb = n if b == "sse2" else max(20, n // 3)
                 core.correspond(pid, tier, b, ["gen", profile, gen_seed(seed, zlib.crc32(profile.encode()) % 97), nb], workdir, stats)
@@ -583,6 +638,13 @@ def run_check(pid, tier, seed):
     cfg = PROPS[pid]
     workdir = core.run_dir(pid, tier)
     stats = dict(evaluations=0, distinct=set(), samples=[], batches=[], notes=[])
+    try:
+        stats["changed"] = core.changed_sources()
+    except Exception:
+        stats["changed"] = []
+    if stats["changed"]:
+        stats["notes"].append("source files differing (token-wise) from the validated baseline: %s — quick tier runs 3x the generated "
+                              "histories per tie (effort only; no verdict depends on it)" % ", ".join(stats["changed"]))
     rc_final = 0
     messages = []
     # 0. ties that regenerate Lean inputs from /repo come first
